@@ -174,13 +174,18 @@ PROPS = {
                        "0..=i, minus one)-th interest bit; None past the end or before the first advance -- for every node index and for EVERY "
                        "cursor value satisfying the cursor invariant; every value stored into the cursor cell satisfies the invariant "
                        "(InvCell model) and the cursor does not occur in the postcondition, so the answers cannot depend on the order or "
-                       "repetition of earlier lookups. The builders (build_unchecked / try_build: bitmaps == recorded positions) are NOT "
-                       "proved: bounded Kani evidence (thorough tier) runs the real builder on 5 positions and then one lookup from any "
-                       "invariant-satisfying cursor. Dense fallbacks are plain Vec indexing.",
+                       "repetition of earlier lookups. The builders are proved too: AdvancePositions::build_unchecked (with "
+                       "build_cumulative_rank and build_select_samples) returns a table that satisfies the representation invariant and "
+                       "answers exactly positions[i] for every node; CompactEndPositions::try_build returns None exactly when the recorded "
+                       "(non-zero) ends are not non-decreasing and otherwise a table answering, for every node, None before the first "
+                       "recorded end and else the last end recorded at or before the node (its own when it has one); the default cursor "
+                       "stored at construction satisfies the invariant. Dense fallbacks are plain Vec indexing. Kani (thorough tier) runs "
+                       "the real builder on 5 positions and one lookup from any invariant-satisfying cursor, for replayable counterexamples.",
         "trusted_base": COMMON_TRUST + ["Verus 0.2026.09.13 + Z3; InvCell model of core::cell::Cell",
                                         "seam R4: scan_select contract (unit c01_scan), select_in_word contract (Kani, C02)"],
-        "assumptions": ["representation invariant of the tables (rank directory over the advance words, total ones, samples are select "
-                        "positions, tail bits clear, at most 2^32 text bytes) is assumed of callers: the builders have bounded evidence only",
+        "assumptions": ["inputs of the builders: at most 2^30 nodes, text_len < 2^32 - 16, start positions non-decreasing and < text_len "
+                        "(OpenPositions::build checks monotonicity and falls back to the dense Vec otherwise), ends <= text_len",
+                        "OpenPositions / EndPositions enum wrappers (a monotonicity test with iterator adapters, then a match) are not extracted",
                         "usize is 64 bits"],
     },
     "C04": {
